@@ -118,3 +118,14 @@ Theorem c03_unmodified_untouched : forall E fresh m c c' evs,
   apply E fresh m c = (c', evs, false) -> c' = c.
 Proof. exact unmodified_untouched. Qed.
 Print Assumptions c03_unmodified_untouched.
+
+(* a channel modifier (set_contact_channel) changes affinity and order only: the identities (scheme + path) of the
+   contact's URNs are the same afterwards.  [chan_env_ok] now also says that SetChannel keeps the identity of a URN — true
+   of the code since fix F3m (SetChannel replaces the channel query only; before, it re-normalized the stored path) and
+   evaluated on every case of the correspondence run *)
+Theorem c03_channel_keeps_identities : forall E ch c c1 evs modified i,
+  chan_env_ok E (MChannel ch) c = true ->
+  apply_channel E ch c = (c1, evs, modified) ->
+  (In i (map (ident_of E) (c_urns c1)) <-> In i (map (ident_of E) (c_urns c))).
+Proof. exact channel_keeps_identities. Qed.
+Print Assumptions c03_channel_keeps_identities.
